@@ -50,6 +50,16 @@ def generate(rng, tier, i):
             ops.append({'op': 'unsub', 'cb': rng.randrange(ncb), 'ctx': ctx, 'gap_ms': gap})
         else:
             ops.append({'op': 'frame', 'da': rng.choice([255, 0x20, 0x21]), 'gap_ms': gap})
+    if rng.random() < 0.15:
+        # one callback registered twice in a row, removed, then traffic / time passes: it must stay silent
+        cbx = rng.randrange(ncb)
+        if rng.random() < 0.5:
+            ops += [{'op': 'sub', 'cb': cbx, 'filter': None, 'ctx': 'app', 'gap_ms': 0}, {'op': 'sub', 'cb': cbx, 'filter': rng.choice([None, 0x20]), 'ctx': 'app', 'gap_ms': 0},
+                    {'op': 'unsub', 'cb': cbx, 'ctx': 'app', 'gap_ms': 1}, {'op': 'frame', 'da': 255, 'gap_ms': 1}]
+        else:
+            per = rng.choice([5, 10, 50])
+            ops += [{'op': 'add', 'cb': cbx, 'period_ms': per, 'periodic': True, 'ctx': 'app', 'gap_ms': 0}, {'op': 'add', 'cb': cbx, 'period_ms': per, 'periodic': rng.random() < 0.5, 'ctx': 'app', 'gap_ms': 0},
+                    {'op': 'remove', 'cb': cbx, 'ctx': 'app', 'gap_ms': rng.choice([0, 1, per])}]
     scn['ops'] = ops
     if small:
         scn['kernel']['lmax_ns'] = min(scn['kernel']['lmax_ns'], 50_000)
@@ -104,8 +114,9 @@ def execute(scn, keep_log=False, hook=None):
                 sr = r.get('self_remove_after')
                 if sr is not None and len(r['calls']) >= sr:
                     stats['self_removals'] += 1
+                    s0 = stamp()
                     ecu.remove_timer(fn)
-                    removed.setdefault(cb, []).append(stamp())
+                    removed.setdefault(cb, []).append(stamp() + (s0[1],))
                     return r['self_remove_returns']
                 return r['periodic']
             timer_fns[cb] = fn
@@ -130,8 +141,11 @@ def execute(scn, keep_log=False, hook=None):
             ecu.add_timer(o['period_ms'] / 1000.0, timer_fn(o['cb']), cookie=len(regs) - 1)
         elif o['op'] == 'remove':
             stats['removes'] += 1
+            s0 = stamp()
             ecu.remove_timer(timer_fn(o['cb']))
-            removed.setdefault(o['cb'], []).append(stamp())
+            # (time returned, tick returned, tick called): a registration another thread makes while the call is in progress
+            # (remove_timer wakes the job thread before it returns) is concurrent with the removal and not covered by it
+            removed.setdefault(o['cb'], []).append(stamp() + (s0[1],))
         elif o['op'] == 'sub':
             flt = o['filter']
             if flt == 'pred':
@@ -193,7 +207,7 @@ def execute(scn, keep_log=False, hook=None):
 
     for k, r in enumerate(regs):
         cb, t_reg, delta = r['cb'], r['t_reg'], r['delta']
-        ends = [x for x in removed.get(cb, []) if x[1] > r['tick_reg']]
+        ends = [x for x in removed.get(cb, []) if x[2] > r['tick_reg']]
         stop = min(ends, key=lambda x: x[1]) if ends else None
         t_stop = stop[0] if stop else None
         call_stamps = r['calls']
